@@ -41,7 +41,7 @@ inline Profile base_profile(int prop, bool thorough)
             set({{OP_DEFAULT_CONSTRUCT, 1}, {OP_POP_BACK, 6}, {OP_ERASE, 12}, {OP_ERASE_RANGE, 8}, {OP_CLEAR, 3},
                  {OP_RESERVE, 10}, {OP_ITER, 2}, {OP_COPY_CONSTRUCT, 2}, {OP_MOVE_CONSTRUCT, 1}, {OP_COPY_ASSIGN, 2},
                  {OP_MOVE_ASSIGN, 2}, {OP_SWAP, 1}, {OP_ELEM_CONSTRUCT, 2}, {OP_ELEM_COPY, 1}, {OP_ELEM_ASSIGN, 1},
-                 {OP_ELEM_DESTROY, 1}});
+                 {OP_ELEM_DESTROY, 1}, {OP_ELEM_SWAP, 1}});
             break;
         case C02:
         case C10:
@@ -67,7 +67,7 @@ inline Profile base_profile(int prop, bool thorough)
         case C11:
             set({{OP_WRITE, 14}, {OP_REF_ASSIGN, 12}, {OP_REF_SWAP, 8}, {OP_ALGO, 10}, {OP_ITER, 10}, {OP_POP_BACK, 2},
                  {OP_ERASE, 2}, {OP_RESERVE, 3}, {OP_ELEM_CONSTRUCT, 2}, {OP_ELEM_TO_REF, 3}, {OP_COPY_CONSTRUCT, 1},
-                 {OP_COPY_ASSIGN, 3}, {OP_MOVE_ASSIGN, 2}});
+                 {OP_COPY_ASSIGN, 3}, {OP_MOVE_ASSIGN, 2}, {OP_SWAP, 2}, {OP_MOVE_CONSTRUCT, 2}});
             break;
         case C12:
             set({{OP_ELEM_CONSTRUCT, 14}, {OP_ELEM_COPY, 8}, {OP_ELEM_ASSIGN, 12}, {OP_ELEM_SWAP, 4},
@@ -76,7 +76,7 @@ inline Profile base_profile(int prop, bool thorough)
             break;
         case C13:
         case C14:
-            set({{OP_COMPARE, 30}, {OP_MAKE_EQUAL, 10}, {OP_ELEM_CONSTRUCT, 5}, {OP_ELEM_COPY, 2}, {OP_WRITE, 4},
+            set({{OP_COMPARE, 30}, {OP_MAKE_EQUAL, 10}, {OP_MAKE_ALIAS, 4}, {OP_ELEM_CONSTRUCT, 5}, {OP_ELEM_COPY, 2}, {OP_WRITE, 4},
                  {OP_ERASE, 3}, {OP_POP_BACK, 3}, {OP_RESERVE, 3}, {OP_COPY_CONSTRUCT, 3}, {OP_CLEAR, 1},
                  {OP_DEFAULT_CONSTRUCT, 1}, {OP_ELEM_DESTROY, 1}});
             p.small_domain = 3;
